@@ -1267,6 +1267,10 @@ func SelectExpr(query *Query, current Map, expr *sqlparser.SelectExprs, opts ...
 		case *sqlparser.StarExpr:
 			{
 				for key, value := range current {
+					// a CTE that has not been evaluated yet is not data
+					if _, ok := value.(CteEvaluation); ok {
+						continue
+					}
 					query.postProcessors = append(query.postProcessors, func() error {
 						delete(data, "<-")
 						return nil
